@@ -25,6 +25,76 @@ Definition use_re2 (thr : Z) (len : nat) : bool := (0 <=? thr) && (thr <=? Z.of_
 (** the same with the constants / conditions read from the source *)
 Definition parse_threshold_src (env : option Z) : Z := match env with Some n => n | None => disabled_src end.
 
+(** ---- threshold() as read from the source.  The environment: variable unset, set to a text strconv.ParseInt(_, 10, 64)
+    rejects (syntax or range), or set to the decimal text of an int64. *)
+Inductive env3 := EnvUnset | EnvBad | EnvInt (n : Z).
+Definition env3_opt (e : env3) : option Z := match e with EnvInt n => Some n | _ => None end.
+Definition env_set (e : env3) : bool := match e with EnvUnset => false | _ => true end.
+Definition env_parsed (e : env3) : bool := match e with EnvInt _ => true | _ => false end.
+
+Section Threshold.
+  Variable opq : nat -> bool.   (* value of the conditions the translator does not interpret *)
+  Fixpoint eval_tcond (e : env3) (c : tcond) : bool :=
+    match c with
+    | TTrue => true
+    | TFalse => false
+    | TSet => env_set e
+    | TParsedOk => env_parsed e
+    | TNot c1 => negb (eval_tcond e c1)
+    | TAnd c1 c2 => eval_tcond e c1 && eval_tcond e c2
+    | TOr c1 c2 => eval_tcond e c1 || eval_tcond e c2
+    | TOpaque k => opq k
+    end.
+  (** None: the function returns something the model cannot name — in particular the first result of a ParseInt that failed *)
+  Fixpoint eval_ttree (t : ttree) (e : env3) : option Z :=
+    match t with
+    | TRet VParsed => env3_opt e
+    | TRet (VConst z) => Some z
+    | TIf c t1 t2 => if eval_tcond e c then eval_ttree t1 e else eval_ttree t2 e
+    | TOther => None
+    end.
+  Definition threshold_src (e : env3) : option Z := eval_ttree threshold_tree e.
+End Threshold.
+
+Definition tcond3 (set parsed : bool) : tcond -> option bool :=
+  fix go (c : tcond) : option bool :=
+    match c with
+    | TTrue => Some true
+    | TFalse => Some false
+    | TSet => Some set
+    | TParsedOk => Some parsed
+    | TNot c1 => option_map negb (go c1)
+    | TAnd c1 c2 => match go c1, go c2 with
+                    | Some false, _ | _, Some false => Some false
+                    | Some true, Some true => Some true
+                    | _, _ => None
+                    end
+    | TOr c1 c2 => match go c1, go c2 with
+                   | Some true, _ | _, Some true => Some true
+                   | Some false, Some false => Some false
+                   | _, _ => None
+                   end
+    | TOpaque _ => None
+    end.
+
+Definition tval_eqb (a b : tval) : bool :=
+  match a, b with VParsed, VParsed => true | VConst x, VConst y => Z.eqb x y | _, _ => false end.
+
+Fixpoint tleaves_ok (want : tval) (set parsed : bool) (t : ttree) : bool :=
+  match t with
+  | TRet v => tval_eqb v want
+  | TOther => false
+  | TIf c t1 t2 => match tcond3 set parsed c with
+                   | Some true => tleaves_ok want set parsed t1
+                   | Some false => tleaves_ok want set parsed t2
+                   | None => tleaves_ok want set parsed t1 && tleaves_ok want set parsed t2
+                   end
+  end.
+
+(** unset => -1, unparsable => -1, a number => that number: on every path possible in the respective situation *)
+Definition ttree_ok (t : ttree) : bool :=
+  tleaves_ok (VConst (-1)) false false t && tleaves_ok (VConst (-1)) true false t && tleaves_ok VParsed true true t.
+
 Section Dispatch.
   Variables R T L O : Type.             (* regexps, inputs, match limits (the n of FindAllIndex), results *)
   Variable len : T -> nat.
@@ -125,11 +195,13 @@ Definition expected_engine_packages : list String.string :=
   ["Grafana:github.com/grafana/regexp"; "RE2:github.com/wasilibs/go-re2"]%string.
 
 (** ---- runner: the dispatch decisions observed in the implementation, against the hand model AND the generated conditions *)
-Definition c28case := (option Z * nat * bool * bool)%type.   (* env value, input length, re.re2 != nil, useRE2(len) *)
+Definition c28case := (env3 * nat * bool * bool)%type.   (* environment, input length, re.re2 != nil, useRE2(len) *)
 Definition c28_ok (c : c28case) : bool :=
-  let '(env, n, compiled, used) := c in
+  let '(e, n, compiled, used) := c in
+  let env := env3_opt e in
   let thr := parse_threshold env in
-  let thr' := parse_threshold_src env in
+  let thr' := match threshold_src (fun _ => false) e with Some z => z | None => parse_threshold_src env end in
   Bool.eqb (re2_compiled thr) compiled && Bool.eqb (use_re2 thr n) used &&
-  Bool.eqb (re2_compiled_src thr') compiled && Bool.eqb (use_re2_src thr' (Z.of_nat n)) used.
+  Bool.eqb (re2_compiled_src thr') compiled && Bool.eqb (use_re2_src thr' (Z.of_nat n)) used &&
+  String.eqb threshold_env_name "ZOEKT_RE2_THRESHOLD_BYTES".
 Definition c28_mismatches (l : list c28case) : list N := bad_indexes c28_ok l.
